@@ -37,7 +37,7 @@ def random_cases(rng, n):
             snr = [R(rng.choice([Fraction(1, 4), 1, 4, 9, 25, 100, Fraction(1, 100), 7, Fraction(5, 2)])) for _ in range(k)]
         out.append({"fn": "noise", "a": [R(v) for v in a], "mode": mode, "snr": snr, "std": R(rng.choice([Fraction(1, 2), 1, 2, Fraction(7, 4), 0])),
                     "draw": [R(Fraction(rng.randint(-16, 16), 8)) for _ in range(m)], "via": rng.choice(["function", "weaver"]),
-                    "container": rng.choice(["array", "list", "int"]), "snr_container": rng.choice(["array", "list"])})
+                    "container": rng.choice(["array", "list", "int"]), "snr_container": rng.choice(["array", "list", "uint8", "uint16", "int64", "int8"])})
     return out
 
 
